@@ -71,6 +71,9 @@ def build_and_validate_headers(headers: Iterable[Tuple[bytes, bytes]]) -> List[T
         if name[0] == b":"[0]:
             raise ValueError("Pseudo headers are not valid")
         validated_name, validated_value = bytes(name).strip(), bytes(value).strip()
+        if validated_name[:1] == b":":
+            # Still a pseudo header once the whitespace has gone
+            raise ValueError("Pseudo headers are not valid")
         for invalid in (b"\x00", b"\r", b"\n"):
             if invalid in validated_name or invalid in validated_value:
                 raise ValueError("Header names and values must not contain NUL, CR or LF")
